@@ -28,10 +28,25 @@
 (*                  e the exterior vector of the edge (Updim.ext,          *)
 (*                  TransformBasis); _Jacobian = sqrt det Gram(R T)        *)
 (*   EvalInterfaces topo.interfaces.sample: both sides of interior facets  *)
+(*   EvalBoundaryField  fields that LIVE ON the boundary topology (a        *)
+(*                  manifold of codimension one: functions of               *)
+(*                  topo.boundary.f_coords / topo.boundary.basis):          *)
+(*                  _TransformsCoords.lower of the boundary chain gives     *)
+(*                  d facet coords / d root = (L^T L)^-1 L^T, the Gram      *)
+(*                  pseudo inverse of the linear part L of the chain        *)
+(*                  (child maps and the edge map, TransformLinear), then    *)
+(*                  _Gradient contracts with (d geom / d root)^-1; the      *)
+(*                  surface gradient of the boundary sample goes through    *)
+(*                  the tip target instead                                  *)
 (*   Integrate      topo.integrate / topo.boundary.integrate with the      *)
 (*                  Jacobian measure (exact rational quadrature: closed    *)
 (*                  Newton-Cotes, simplices through the Duffy map)         *)
 (*   RefineIntegrals  the same integrals on the refined mesh               *)
+(* Product topologies (spaces X, Y, [Z]; mesh.sp lists their dimensions):   *)
+(* the root derivative is the concatenation of one block per space,        *)
+(* d . / d root_s (function._Gradient / _Jacobian / _Normal loop over       *)
+(* args.exposed), for a geometry that spans all spaces; per-space          *)
+(* operators (grad(f, geom[cols_s], spaces=[s])) use one diagonal block.    *)
 (* `res` holds what the implementation route computes; the invariants      *)
 (* compare it with the DEFINING identities of the property:                *)
 (*   GradIsDerivative   grad p(X) = p'(X)  (d f/d ref R^-1 = p'(G(x0)))    *)
@@ -49,6 +64,15 @@
 (*   DivTheoremMesh     the same over the boundary of the mesh; interface  *)
 (*                      fluxes cancel                                      *)
 (*   RefinePreserves    (action property) refinement changes no integral   *)
+(*   BoundaryFieldTangential  the gradient of a field on the boundary       *)
+(*                      topology agrees with p'(X) along every tangent of   *)
+(*                      the facet (its normal component is not defined)     *)
+(*   BoundarySurfGrad   the surface gradient on a boundary sample is the    *)
+(*                      tangential projection (I - n n^T) of p'(X)          *)
+(*   ProductGradient    on product topologies the concatenated per-space    *)
+(*                      blocks give p'(X) (and B is block diagonal)         *)
+(*   PerSpace           per-space gradients of a separable geometry are the *)
+(*                      partial derivatives with respect to that space      *)
 (* Results only depend on x0, G, p: independence of parametrisation is the *)
 (* fact that the implementation route (through ref coordinates, B = E)     *)
 (* equals the definitional route (which does not see the element).         *)
@@ -63,6 +87,9 @@ CONSTANTS MeshNames,     \* base meshes
           Lattice,       \* K: sample points have local coordinates k / K (meshes of dimension 1 and 2)
           Lattice3,      \* K for meshes of dimension 3
           IntegrateOn,   \* base meshes on which integrals are taken
+          BFieldOn,      \* base meshes on whose boundary topology fields are defined (EvalBoundaryField)
+          RefineOnB,     \* base meshes that may be refined for EvalBoundaryField only
+          ProdGeomIds,   \* more geometry maps, for the product meshes (more than one space) only
           GmMutant       \* "none" or the name of a deliberately wrong model variant
 
 VARIABLES mesh, geom, field, stage, res
@@ -120,6 +147,18 @@ LinComb(c, cols, n) == TLCEval([i \in 1..n |-> QSum(TLCEval([k \in 1..Len(c) |->
 \* matrix (rows) whose columns are the given vectors of length n
 FromCols(cols, n) == TLCEval([i \in 1..n |-> TLCEval([k \in 1..Len(cols) |-> cols[k][i]])])
 
+IdCols(n) == TLCEval([k \in 1..n |-> GmUnit(n, k)])
+\* the sub matrix of the rows rs and columns cs (sequences of indices)
+SubMat(A, rs, cs) == TLCEval([i \in 1..Len(rs) |-> TLCEval([j \in 1..Len(cs) |-> A[rs[i]][cs[j]]])])
+UpTo(n) == TLCEval([i \in 1..n |-> i])
+\* horizontal concatenation of a sequence of matrices with the same number of rows
+RECURSIVE RowCat(_, _, _)
+RowCat(Bs, i, k) == IF k = 0 THEN <<>> ELSE RowCat(Bs, i, k - 1) \o Bs[k][i]
+HCat(Bs) == TLCEval([i \in 1..Len(Bs[1]) |-> RowCat(Bs, i, Len(Bs))])
+\* the columns of the s-th space of a product with space dimensions sp
+RECURSIVE SpStart(_, _)
+SpStart(sp, s) == IF s = 1 THEN 0 ELSE sp[s - 1] + SpStart(sp, s - 1)
+SpCols(sp, s) == TLCEval([k \in 1..sp[s] |-> SpStart(sp, s) + k])
 GmOthers(n, i) == IF n = 2 THEN <<3 - i>> ELSE IF i = 1 THEN <<2, 3>> ELSE IF i = 2 THEN <<1, 3>> ELSE <<1, 2>>
 QMinor(A, i, j) == LET n == Len(A)
                        r == GmOthers(n, i)
@@ -165,51 +204,60 @@ PsDeg(Ps) == PsDegTo(Ps, Len(Ps))
 
 (***************************************************************************)
 (* the geometry maps (all of them diffeomorphisms / immersions on x0 >= 0) *)
+(* sep: 0 not separable, 1 every component depends on its own coordinate   *)
+(* only, 2 (x, y) |-> (X, Y) and z |-> Z separately                         *)
 (***************************************************************************)
 GmGeoms == <<
   \* ---- R -> R
-  [m |-> 1, n |-> 1, sep |-> TRUE,  G |-> << <<<<1,1,0,0>>>> >>],                                   \*  1: x
-  [m |-> 1, n |-> 1, sep |-> TRUE,  G |-> << <<<<0-2,1,0,0>>, <<1,0,0,0>>>> >>],                    \*  2: 1 - 2 x  (reversing)
-  [m |-> 1, n |-> 1, sep |-> TRUE,  G |-> << <<<<1,1,0,0>>, <<1,2,0,0>>>> >>],                      \*  3: x + x^2
-  [m |-> 1, n |-> 1, sep |-> TRUE,  G |-> << <<<<0-3,1,0,0>>, <<0-1,2,0,0>>, <<2,0,0,0>>>> >>],     \*  4: 2 - 3 x - x^2 (reversing)
+  [m |-> 1, n |-> 1, sep |-> 1,  G |-> << <<<<1,1,0,0>>>> >>],                                   \*  1: x
+  [m |-> 1, n |-> 1, sep |-> 1,  G |-> << <<<<0-2,1,0,0>>, <<1,0,0,0>>>> >>],                    \*  2: 1 - 2 x  (reversing)
+  [m |-> 1, n |-> 1, sep |-> 1,  G |-> << <<<<1,1,0,0>>, <<1,2,0,0>>>> >>],                      \*  3: x + x^2
+  [m |-> 1, n |-> 1, sep |-> 1,  G |-> << <<<<0-3,1,0,0>>, <<0-1,2,0,0>>, <<2,0,0,0>>>> >>],     \*  4: 2 - 3 x - x^2 (reversing)
   \* ---- R^2 -> R^2
-  [m |-> 2, n |-> 2, sep |-> TRUE,  G |-> << <<<<1,1,0,0>>>>, <<<<1,0,1,0>>>> >>],                  \*  5: identity
-  [m |-> 2, n |-> 2, sep |-> FALSE, G |-> << <<<<2,1,0,0>>, <<1,0,1,0>>, <<1,0,0,0>>>>,             \*  6: (2x + y + 1, x - y), det -3
+  [m |-> 2, n |-> 2, sep |-> 1,  G |-> << <<<<1,1,0,0>>>>, <<<<1,0,1,0>>>> >>],                  \*  5: identity
+  [m |-> 2, n |-> 2, sep |-> 0, G |-> << <<<<2,1,0,0>>, <<1,0,1,0>>, <<1,0,0,0>>>>,             \*  6: (2x + y + 1, x - y), det -3
                                              <<<<1,1,0,0>>, <<0-1,0,1,0>>>> >>],
-  [m |-> 2, n |-> 2, sep |-> FALSE, G |-> << <<<<1,1,0,0>>, <<1,0,2,0>>>>, <<<<2,0,1,0>>>> >>],     \*  7: (x + y^2, 2 y), det 2
-  [m |-> 2, n |-> 2, sep |-> FALSE, G |-> << <<<<1,1,0,0>>, <<1,2,0,0>>>>,                          \*  8: (x + x^2, y + x y), det (1+2x)(1+x)
+  [m |-> 2, n |-> 2, sep |-> 0, G |-> << <<<<1,1,0,0>>, <<1,0,2,0>>>>, <<<<2,0,1,0>>>> >>],     \*  7: (x + y^2, 2 y), det 2
+  [m |-> 2, n |-> 2, sep |-> 0, G |-> << <<<<1,1,0,0>>, <<1,2,0,0>>>>,                          \*  8: (x + x^2, y + x y), det (1+2x)(1+x)
                                              <<<<1,0,1,0>>, <<1,1,1,0>>>> >>],
-  [m |-> 2, n |-> 2, sep |-> FALSE, G |-> << <<<<1,0,1,0>>, <<1,2,0,0>>>>, <<<<1,1,0,0>>>> >>],     \*  9: (y + x^2, x), det -1
-  [m |-> 2, n |-> 2, sep |-> TRUE,  G |-> << <<<<1,1,0,0>>, <<1,2,0,0>>>>,                          \* 10: (x + x^2, 1 - 2 y) separable, reversing
+  [m |-> 2, n |-> 2, sep |-> 0, G |-> << <<<<1,0,1,0>>, <<1,2,0,0>>>>, <<<<1,1,0,0>>>> >>],     \*  9: (y + x^2, x), det -1
+  [m |-> 2, n |-> 2, sep |-> 1,  G |-> << <<<<1,1,0,0>>, <<1,2,0,0>>>>,                          \* 10: (x + x^2, 1 - 2 y) separable, reversing
                                              <<<<0-2,0,1,0>>, <<1,0,0,0>>>> >>],
   \* ---- R^3 -> R^3
-  [m |-> 3, n |-> 3, sep |-> TRUE,  G |-> << <<<<1,1,0,0>>>>, <<<<1,0,1,0>>>>, <<<<1,0,0,1>>>> >>], \* 11: identity
-  [m |-> 3, n |-> 3, sep |-> FALSE, G |-> << <<<<1,1,0,0>>, <<1,0,1,0>>>>,                          \* 12: (x + y, 2y + z, x - z), det -1
+  [m |-> 3, n |-> 3, sep |-> 1,  G |-> << <<<<1,1,0,0>>>>, <<<<1,0,1,0>>>>, <<<<1,0,0,1>>>> >>], \* 11: identity
+  [m |-> 3, n |-> 3, sep |-> 0, G |-> << <<<<1,1,0,0>>, <<1,0,1,0>>>>,                          \* 12: (x + y, 2y + z, x - z), det -1
                                              <<<<2,0,1,0>>, <<1,0,0,1>>>>,
                                              <<<<1,1,0,0>>, <<0-1,0,0,1>>>> >>],
-  [m |-> 3, n |-> 3, sep |-> FALSE, G |-> << <<<<1,1,0,0>>, <<1,0,1,1>>>>,                          \* 13: (x + y z, y + z^2, z), det 1
+  [m |-> 3, n |-> 3, sep |-> 0, G |-> << <<<<1,1,0,0>>, <<1,0,1,1>>>>,                          \* 13: (x + y z, y + z^2, z), det 1
                                              <<<<1,0,1,0>>, <<1,0,0,2>>>>,
                                              <<<<1,0,0,1>>>> >>],
-  [m |-> 3, n |-> 3, sep |-> FALSE, G |-> << <<<<1,1,0,0>>, <<1,1,0,1>>>>,                          \* 14: (x + x z, y + x^2, z + z^2), det (1+z)(1+2z)
+  [m |-> 3, n |-> 3, sep |-> 0, G |-> << <<<<1,1,0,0>>, <<1,1,0,1>>>>,                          \* 14: (x + x z, y + x^2, z + z^2), det (1+z)(1+2z)
                                              <<<<1,0,1,0>>, <<1,2,0,0>>>>,
                                              <<<<1,0,0,1>>, <<1,0,0,2>>>> >>],
-  [m |-> 3, n |-> 3, sep |-> FALSE, G |-> << <<<<1,0,1,0>>>>,                                       \* 15: (y, x + z^2, 2 z) det -2
+  [m |-> 3, n |-> 3, sep |-> 0, G |-> << <<<<1,0,1,0>>>>,                                       \* 15: (y, x + z^2, 2 z) det -2
                                              <<<<1,1,0,0>>, <<1,0,0,2>>>>,
                                              <<<<2,0,0,1>>>> >>],
   \* ---- curves R -> R^2
-  [m |-> 1, n |-> 2, sep |-> FALSE, G |-> << <<<<1,1,0,0>>>>, <<<<1,2,0,0>>>> >>],                  \* 16: (x, x^2)
-  [m |-> 1, n |-> 2, sep |-> FALSE, G |-> << <<<<2,1,0,0>>>>, <<<<0-1,1,0,0>>, <<1,0,0,0>>>> >>],   \* 17: (2x, 1 - x)
-  [m |-> 1, n |-> 2, sep |-> FALSE, G |-> << <<<<0-1,2,0,0>>>>, <<<<1,1,0,0>>, <<1,0,0,0>>>> >>],   \* 18: (-x^2, x + 1)
+  [m |-> 1, n |-> 2, sep |-> 0, G |-> << <<<<1,1,0,0>>>>, <<<<1,2,0,0>>>> >>],                  \* 16: (x, x^2)
+  [m |-> 1, n |-> 2, sep |-> 0, G |-> << <<<<2,1,0,0>>>>, <<<<0-1,1,0,0>>, <<1,0,0,0>>>> >>],   \* 17: (2x, 1 - x)
+  [m |-> 1, n |-> 2, sep |-> 0, G |-> << <<<<0-1,2,0,0>>>>, <<<<1,1,0,0>>, <<1,0,0,0>>>> >>],   \* 18: (-x^2, x + 1)
   \* ---- surfaces R^2 -> R^3
-  [m |-> 2, n |-> 3, sep |-> FALSE, G |-> << <<<<1,1,0,0>>>>, <<<<1,0,1,0>>>>, <<<<1,1,1,0>>>> >>], \* 19: (x, y, x y)
-  [m |-> 2, n |-> 3, sep |-> FALSE, G |-> << <<<<1,1,0,0>>, <<1,0,1,0>>>>,                          \* 20: (x + y, x - y, 2x + y^2)
+  [m |-> 2, n |-> 3, sep |-> 0, G |-> << <<<<1,1,0,0>>>>, <<<<1,0,1,0>>>>, <<<<1,1,1,0>>>> >>], \* 19: (x, y, x y)
+  [m |-> 2, n |-> 3, sep |-> 0, G |-> << <<<<1,1,0,0>>, <<1,0,1,0>>>>,                          \* 20: (x + y, x - y, 2x + y^2)
                                              <<<<1,1,0,0>>, <<0-1,0,1,0>>>>,
                                              <<<<2,1,0,0>>, <<1,0,2,0>>>> >>],
-  [m |-> 2, n |-> 3, sep |-> FALSE, G |-> << <<<<1,0,1,0>>>>, <<<<1,1,0,0>>>>,                      \* 21: (y, x, x + 2y) affine, reversing
-                                             <<<<1,1,0,0>>, <<2,0,1,0>>>> >>]
+  [m |-> 2, n |-> 3, sep |-> 0, G |-> << <<<<1,0,1,0>>>>, <<<<1,1,0,0>>>>,                      \* 21: (y, x, x + 2y) affine, reversing
+                                             <<<<1,1,0,0>>, <<2,0,1,0>>>> >>],
+  \* ---- R^3 -> R^3, separable (per-space operators on products of three / two spaces)
+  [m |-> 3, n |-> 3, sep |-> 1, G |-> << <<<<1,1,0,0>>, <<1,2,0,0>>>>,                              \* 22: (x + x^2, 1 - 2 y, 2 z + z^2) reversing
+                                         <<<<0-2,0,1,0>>, <<1,0,0,0>>>>,
+                                         <<<<2,0,0,1>>, <<1,0,0,2>>>> >>],
+  [m |-> 3, n |-> 3, sep |-> 2, G |-> << <<<<1,1,0,0>>, <<1,0,2,0>>>>,                              \* 23: (x + y^2, 2 y, z + z^2), det 2 (1 + 2z)
+                                         <<<<2,0,1,0>>>>,
+                                         <<<<1,0,0,1>>, <<1,0,0,2>>>> >>]
 >>
 \* dG: the polynomials d G_i / d x0_j (kept in the state: TLC does not memoise operator applications)
-NoGeom == [id |-> 0, m |-> 0, n |-> 0, sep |-> FALSE, G |-> <<>>, dG |-> <<>>]
+NoGeom == [id |-> 0, m |-> 0, n |-> 0, sep |-> 0, G |-> <<>>, dG |-> <<>>]
 GeomRec(i) == [id |-> i, m |-> GmGeoms[i].m, n |-> GmGeoms[i].n, sep |-> GmGeoms[i].sep, G |-> GmGeoms[i].G,
                dG |-> TLCEval([a \in 1..GmGeoms[i].n |-> TLCEval([b \in 1..GmGeoms[i].m |-> TLCEval(PDiff(GmGeoms[i].G[a], b))])])]
 
@@ -304,7 +352,10 @@ ChildMaps(rt) ==
 (***************************************************************************)
 (* meshes                                                                  *)
 (***************************************************************************)
-MkElem(rt, o, E) == [ref |-> rt, o |-> o, E |-> E]       \* x0 = o + sum xi_k E[k]
+\* x0 = o + sum xi_k E[k]; C: the columns of the linear part of the chain from the coordinates of the element to the
+\* root coordinates (the coordinates of the unrefined element it descends from): the product of the child maps
+MkElemC(rt, o, E, C) == [ref |-> rt, o |-> o, E |-> E, C |-> C]
+MkElem(rt, o, E) == MkElemC(rt, o, E, IdCols(RefDim(rt)))
 Box1(a, b) == MkElem("L", IV(<<a>>), <<IV(<<b - a>>)>>)
 Box2(a, b) == MkElem("S", IV(a), <<IV(<<b[1] - a[1], 0>>), IV(<<0, b[2] - a[2]>>)>>)
 Box3(a, b) == MkElem("C", IV(a), <<IV(<<b[1] - a[1], 0, 0>>), IV(<<0, b[2] - a[2], 0>>), IV(<<0, 0, b[3] - a[3]>>)>>)
@@ -318,12 +369,17 @@ BaseElems(name) ==
                           Simplex("T", <<<<2, 0>>, <<0, 1>>, <<2, 2>>>>),
                           Simplex("T", <<<<0, 1>>, <<2, 2>>, <<0, 3>>>>)}
       [] name = "box" -> {Box3(<<0, 0, 0>>, <<1, 2, 1>>), Box3(<<0, 0, 1>>, <<1, 2, 3>>)}  \* mesh.rectilinear([[0,1],[0,2],[0,1,3]])
+      [] name = "prod3" -> {Box3(<<0, 0, 0>>, <<1, 2, 1>>), Box3(<<0, 0, 1>>, <<1, 2, 3>>)}  \* rectilinear([[0,1]], 'X') * rectilinear([[0,2]], 'Y') * rectilinear([[0,1,3]], 'Z')
+      [] name = "prodm" -> {Box3(<<0, 0, 0>>, <<1, 2, 1>>), Box3(<<1, 0, 0>>, <<3, 2, 1>>)}  \* rectilinear([[0,1,3],[0,2]], 'X') * rectilinear([[0,1]], 'Z')
       [] name = "tet" -> {Simplex("K", <<<<0, 0, 0>>, <<1, 0, 0>>, <<0, 2, 0>>, <<0, 0, 1>>>>),
                           Simplex("K", <<<<1, 0, 0>>, <<0, 2, 0>>, <<0, 0, 1>>, <<1, 2, 1>>>>)}
 MeshDim(name) == CASE name = "line" -> 1 [] name \in {"rect", "prod", "tri"} -> 2 [] OTHER -> 3
+\* the dimensions of the spaces of the mesh (one space, except for the products)
+MeshSpaces(name) == CASE name = "prod" -> <<1, 1>> [] name = "prod3" -> <<1, 1, 1>> [] name = "prodm" -> <<2, 1>> [] OTHER -> <<MeshDim(name)>>
 X0(el, xi) == VAdd(el.o, LinComb(xi, el.E, Len(el.o)))
 BMat(el) == FromCols(el.E, Len(el.o))                     \* d x0 / d xi
-Children(el) == {MkElem(el.ref, X0(el, c.off), TLCEval([k \in 1..Len(el.E) |-> LinComb(c.lin[k], el.E, Len(el.o))])) : c \in ChildMaps(el.ref)}
+Children(el) == {MkElemC(el.ref, X0(el, c.off), TLCEval([k \in 1..Len(el.E) |-> LinComb(c.lin[k], el.E, Len(el.o))]),
+                              TLCEval([k \in 1..Len(el.E) |-> LinComb(c.lin[k], el.C, Len(el.o))])) : c \in ChildMaps(el.ref)}
 ElemVerts(el) == {X0(el, xi) : xi \in LatPts(el.ref, 1)}
 FacetVerts(el, f) == {X0(el, FacetMap(f, eta)) : eta \in LatPts(f.ft, 1)}
 \* all facets of all elements, with their vertex sets (computed once)
@@ -342,8 +398,20 @@ N == geom.n
 \* d geom / d x0 at x0 (N x M)
 DGeom(x0) == TLCEval([i \in 1..N |-> TLCEval([j \in 1..M |-> PEval(geom.dG[i][j], x0)])])
 GeomAt(x0) == TLCEval([i \in 1..N |-> PEval(geom.G[i], x0)])
-\* R = d geom / d ref: the root derivative of the geometry, DG B
-RGrad(el, x0) == IF GmMutant = "no-chain" THEN DGeom(x0) ELSE MMul(DGeom(x0), BMat(el), M)
+\* the block of one space of a product topology: d geom / d ref_s = (d geom / d x0_s) (d x0_s / d ref_s), N x sp[s]
+\* (the derivative to the root target of space s; the coordinates of a space depend on that space only)
+RBlock(el, x0, s) == LET cs == SpCols(mesh.sp, s)
+                     IN MMul(SubMat(DGeom(x0), UpTo(N), cs), SubMat(BMat(el), cs, cs), Len(cs))
+\* R = d geom / d ref: the root derivative of the geometry, DG B; on a product topology the concatenation of the
+\* derivatives to the root targets of all spaces
+RGrad(el, x0) == IF GmMutant = "no-chain" THEN DGeom(x0)
+                 ELSE IF Len(mesh.sp) = 1 THEN MMul(DGeom(x0), BMat(el), M)
+                 ELSE HCat(TLCEval([s \in 1..Len(mesh.sp) |-> RBlock(el, x0, s)]))
+\* ... and the same for d f / d ref = p'(X) R.  (Spec mutant "same-block": the derivative of the field to the root
+\* target of EVERY space is the one to the first space -- a memo of the derivative that is shared between targets.)
+FGradR(el, x0) == IF GmMutant = "same-block" /\ Len(mesh.sp) > 1
+                  THEN HCat(TLCEval([s \in 1..Len(mesh.sp) |-> RBlock(el, x0, 1)]))
+                  ELSE RGrad(el, x0)
 NComp == Len(field.P)
 FieldAt(X) == TLCEval([c \in 1..NComp |-> PEval(field.P[c], X)])
 \* p'(X): the defining gradient (NComp x N)
@@ -354,16 +422,18 @@ CurlOf(A) == IF Len(A) = 3 /\ N = 3
              THEN <<QSub(A[3][2], A[2][3]), QSub(A[1][3], A[3][1]), QSub(A[2][1], A[1][2])>>
              ELSE <<>>
 \* gradient through the reference coordinates: (p'(X) R) R^-1, or (p'(X) R) Gram^-1 R^T on a manifold
-GradImpl(X, R) == LET dfdref == MMul(DField(X), R, M)
+GradImpl(X, R, Rf) == LET dfdref == MMul(DField(X), Rf, M)
                   IN IF N = M THEN MMul(dfdref, QInv(R), N)
                      ELSE MMul(MMul(dfdref, QInv(Gram(R, M)), M), MT(R, M), N)
 IsVec == field.kind = "v" /\ NComp = N
+\* per-space operators are defined: a product topology and a geometry that does not couple its spaces
+SepOn == Len(mesh.sp) > 1 /\ N = M /\ (geom.sep = 1 \/ (geom.sep = 2 /\ mesh.sp = <<2, 1>>))
 
 InteriorRow(el, xi) ==
     LET x0 == X0(el, xi)
         X == GeomAt(x0)
         R == RGrad(el, x0)
-        g == GradImpl(X, R)
+        g == GradImpl(X, R, FGradR(el, x0))
     IN [ev |-> ElemVerts(el), x0 |-> x0, X |-> X, f |-> FieldAt(X), g |-> g,
         dv |-> IF IsVec THEN <<Trace(g)>> ELSE <<>>,
         cu |-> IF IsVec THEN CurlOf(g) ELSE <<>>,
@@ -374,9 +444,12 @@ InteriorRow(el, xi) ==
         \* the exterior normal with respect to the reference geometry x0 (function.normal(geom, refgeom), _ExteriorNormal)
         nx |-> IF N = M + 1 THEN Cross(DGeom(x0)) ELSE <<>>,
         rc |-> IF N = M + 1 THEN MT(R, M) ELSE <<>>,               \* the tangents of the manifold (columns of R)
-        \* per-space operators of a product topology with a separable geometry: d p / d X_k and |d X_k / d ref_k|
-        gs |-> IF mesh.name = "prod" /\ geom.sep THEN TLCEval([c \in 1..NComp |-> TLCEval([k \in 1..M |-> QDiv(VDot(DField(X)[c], MCol(R, k)), R[k][k])])]) ELSE <<>>,
-        js |-> IF mesh.name = "prod" /\ geom.sep THEN TLCEval([k \in 1..M |-> QMul(R[k][k], R[k][k])]) ELSE <<>>]
+        \* per-space operators of a product topology with a separable geometry (grad(f, geom[cols_s], spaces=[s]), J(geom[cols_s], spaces=[s])):
+        \* (d f / d ref_s) (d geom_s / d ref_s)^-1 and det(d geom_s / d ref_s)^2
+        gs |-> IF SepOn THEN HCat(TLCEval([s \in 1..Len(mesh.sp) |->
+                                 LET cs == SpCols(mesh.sp, s)
+                                 IN MMul(MMul(DField(X), SubMat(R, UpTo(N), cs), Len(cs)), QInv(SubMat(R, cs, cs)), Len(cs))])) ELSE <<>>,
+        js |-> IF SepOn THEN TLCEval([s \in 1..Len(mesh.sp) |-> LET d == QDet(SubMat(R, SpCols(mesh.sp, s), SpCols(mesh.sp, s))) IN QMul(d, d)]) ELSE <<>>]
 
 \* a point of a facet of an element
 FacetRow(el, f, eta) ==
@@ -397,8 +470,39 @@ FacetRow(el, f, eta) ==
         c == IF N = M THEN Cross(Tp) ELSE <<>>
         out == MVec(R, OutDir(el.ref, f))
         nv == IF N = M THEN (IF QSgn(VDot(c, out)) = 1 THEN c ELSE VNeg(c)) ELSE nD
-    IN [ev |-> ElemVerts(el), fv |-> FacetVerts(el, f), x0 |-> x0, X |-> X, f |-> FieldAt(X), g |-> GradImpl(X, R),
+    IN [ev |-> ElemVerts(el), fv |-> FacetVerts(el, f), x0 |-> x0, X |-> X, f |-> FieldAt(X), g |-> GradImpl(X, R, FGradR(el, x0)),
         tp |-> MT(Tp, M - 1), out |-> out, nI |-> nI, nD |-> nD, nv |-> nv, j2 |-> QDet(GT), cod |-> N - M]
+
+\* a point of a facet of an element of a domain (N = M), for a field that lives on the boundary topology:
+\* f = p(G(x0(eta))) as a function of the coordinates eta of the facet
+BFieldRow(el, f, eta) ==
+    LET xi == FacetMap(f, eta)
+        x0 == X0(el, xi)
+        X == GeomAt(x0)
+        R == RGrad(el, x0)                                       \* d geom / d (coordinates of the element)
+        T == FromCols(f.T, M)                                    \* the edge map, M x (M-1)
+        Tp == MMul(R, T, M - 1)                                  \* d geom / d eta: tangents of the facet, N x (M-1)
+        Cm == FromCols(el.C, M)                                  \* root <- coordinates of the element (the child maps)
+        L == MMul(Cm, T, M - 1)                                  \* TransformLinear(None, boundary chain): root <- eta
+        GL == Gram(L, M - 1)
+        \* _TransformsCoords.lower, todims > fromdims: d eta / d root = (L^T L)^-1 L^T
+        \* (spec mutant "diag-gram": the Gram matrix is taken to be diagonal)
+        GLinv == IF GmMutant = "diag-gram"
+                 THEN TLCEval([i \in 1..(M - 1) |-> TLCEval([j \in 1..(M - 1) |-> IF i = j THEN QRecip(GL[i][i]) ELSE QZero])])
+                 ELSE QInv(GL)
+        Linv == MMul(GLinv, MT(L, M - 1), M)                     \* (M-1) x M
+        dfdeta == MMul(DField(X), Tp, M - 1)                     \* chain rule: d f / d eta, NComp x (M-1)
+        dfdroot == MMul(dfdeta, Linv, M)                         \* d f / d root
+        Rroot == MMul(R, QInv(Cm), M)                            \* d geom / d root
+        g == MMul(dfdroot, QInv(Rroot), N)                       \* _Gradient
+        \* _SurfaceGradient on the boundary sample: tip target, d f / d eta (Tp^T Tp)^-1 Tp^T
+        sg == MMul(MMul(dfdeta, QInv(Gram(Tp, M - 1)), M - 1), MT(Tp, M - 1), N)
+        c == Cross(Tp)
+        nv == IF QSgn(VDot(c, MVec(R, OutDir(el.ref, f)))) = 1 THEN c ELSE VNeg(c)
+        tp == MT(Tp, M - 1)
+    IN [ev |-> ElemVerts(el), fv |-> FacetVerts(el, f), x0 |-> x0, X |-> X, f |-> FieldAt(X),
+        tp |-> tp, gt |-> TLCEval([k \in 1..(M - 1) |-> MVec(g, tp[k])]), sg |-> sg, nv |-> nv,
+        orth |-> \A i \in 1..(M - 1) : \A j \in 1..(M - 1) : i = j \/ GL[i][j][1] = 0]
 
 \* N dS alone (domains), for the flux integrals
 FacetNv(el, f, eta) ==
@@ -411,6 +515,7 @@ LatticeK == IF mesh.m = 3 THEN (IF mesh.level = 0 THEN Lattice3 ELSE 1) ELSE Lat
 PointsOf(el) == LatPts(el.ref, LatticeK)
 InteriorRows == UNION {{InteriorRow(el, xi) : xi \in PointsOf(el)} : el \in mesh.elems}
 FacetRows(F) == UNION {{FacetRow(x.el, x.f, eta) : eta \in LatPts(x.f.ft, LatticeK)} : x \in F}
+BFieldRows(F) == UNION {{BFieldRow(x.el, x.f, eta) : eta \in LatPts(x.f.ft, LatticeK)} : x \in F}
 
 (***************************************************************************)
 (* exact integrals: closed Newton-Cotes rules with np points per direction *)
@@ -479,7 +584,7 @@ NoTot == [vol |-> QZero, int |-> QZero, flux |-> QZero, iflux |-> QZero]
 (***************************************************************************)
 (* the machine                                                             *)
 (***************************************************************************)
-MkMesh(name, level, elems) == [name |-> name, level |-> level, m |-> MeshDim(name), elems |-> elems]
+MkMesh(name, level, elems) == [name |-> name, level |-> level, m |-> MeshDim(name), sp |-> MeshSpaces(name), elems |-> elems]
 \* the geometry is regular at every point that is looked at: the measure does not vanish and does not change sign
 Regular(g) == LET RAt(el, xi) == MMul(TLCEval([i \in 1..g.n |-> TLCEval([j \in 1..g.m |-> PEval(g.dG[i][j], X0(el, xi))])]), BMat(el), g.m)
                   pts(el) == LatPts(el.ref, 1) \cup {RefCentroid(el.ref)}
@@ -489,28 +594,34 @@ Regular(g) == LET RAt(el, xi) == MMul(TLCEval([i \in 1..g.n |-> TLCEval([j \in 1
                  /\ g.n = g.m => Cardinality(UNION {{sgn(el, xi) : xi \in pts(el)} : el \in mesh.elems}) = 1
 Init == /\ \E name \in MeshNames : mesh = MkMesh(name, 0, BaseElems(name))
         /\ geom = NoGeom /\ field = NoField /\ stage = "mesh" /\ res = [rows |-> {}, tot |-> NoTot]
-Refine == /\ stage = "mesh" /\ mesh.level < MaxLevel /\ mesh.name \in RefineOn
+Refine == /\ stage = "mesh" /\ mesh.level < MaxLevel /\ mesh.name \in RefineOn \cup RefineOnB
           /\ mesh' = MkMesh(mesh.name, mesh.level + 1, UNION {Children(el) : el \in mesh.elems})
           /\ UNCHANGED <<geom, field, stage, res>>
 SetGeom == /\ stage = "mesh"
-           /\ \E i \in GeomIds : /\ GmGeoms[i].m = mesh.m
-                                 /\ Regular(GeomRec(i))
-                                 /\ geom' = GeomRec(i)
+           /\ \E i \in GeomIds \cup (IF Len(mesh.sp) > 1 THEN ProdGeomIds ELSE {}) :
+                 /\ GmGeoms[i].m = mesh.m
+                 /\ Regular(GeomRec(i))
+                 /\ geom' = GeomRec(i)
            /\ stage' = "geom" /\ UNCHANGED <<mesh, field, res>>
 SetField == /\ stage = "geom"
             /\ \E i \in FieldIds : GmFields[i].n = geom.n /\ field' = FieldRec(i)
             /\ stage' = "field" /\ UNCHANGED <<mesh, geom, res>>
-EvalInterior == /\ stage = "field"
+\* (meshes of RefineOnB \ RefineOn are refined for the boundary fields only)
+FullEval == mesh.level = 0 \/ mesh.name \in RefineOn
+EvalInterior == /\ stage = "field" /\ FullEval
                 /\ stage' = "interior" /\ res' = [rows |-> InteriorRows, tot |-> NoTot]
                 /\ UNCHANGED <<mesh, geom, field>>
-EvalBoundary == /\ stage = "field"
+EvalBoundary == /\ stage = "field" /\ FullEval
                 /\ stage' = "boundary" /\ res' = [rows |-> FacetRows(BoundaryFacets), tot |-> NoTot]
                 /\ UNCHANGED <<mesh, geom, field>>
-EvalInterfaces == /\ stage = "field" /\ mesh.name # "prod"
+EvalInterfaces == /\ stage = "field" /\ FullEval
                   /\ InterfaceFacets # {}
                   /\ stage' = "interfaces" /\ res' = [rows |-> FacetRows(InterfaceFacets), tot |-> NoTot]
                   /\ UNCHANGED <<mesh, geom, field>>
-CanIntegrateAll == mesh.name \in IntegrateOn /\ \A el \in mesh.elems : CanIntegrate(el.ref)
+EvalBoundaryField == /\ stage = "field" /\ mesh.name \in BFieldOn /\ N = M /\ M >= 2 /\ Len(mesh.sp) = 1
+                     /\ stage' = "bfield" /\ res' = [rows |-> BFieldRows(BoundaryFacets), tot |-> NoTot]
+                     /\ UNCHANGED <<mesh, geom, field>>
+CanIntegrateAll == FullEval /\ mesh.name \in IntegrateOn /\ \A el \in mesh.elems : CanIntegrate(el.ref)
 Integrate == /\ stage = "field" /\ CanIntegrateAll
              /\ stage' = "integrals" /\ res' = Integrals
              /\ UNCHANGED <<mesh, geom, field>>
@@ -518,7 +629,7 @@ RefineIntegrals == /\ stage = "integrals" /\ mesh.level < MaxLevel /\ mesh.name 
                    /\ LET kids == UNION {Children(el) : el \in mesh.elems}
                       IN mesh' = MkMesh(mesh.name, mesh.level + 1, kids) /\ res' = IntegralsOf(kids)
                    /\ UNCHANGED <<geom, field, stage>>
-Next == Refine \/ SetGeom \/ SetField \/ EvalInterior \/ EvalBoundary \/ EvalInterfaces \/ Integrate \/ RefineIntegrals
+Next == Refine \/ SetGeom \/ SetField \/ EvalInterior \/ EvalBoundary \/ EvalInterfaces \/ EvalBoundaryField \/ Integrate \/ RefineIntegrals
 Spec == Init /\ [][Next]_vars
 
 (***************************************************************************)
@@ -560,24 +671,38 @@ DivTheoremElem == (stage = "integrals" /\ IsVec) => \A r \in res.rows : r.flux =
 DivTheoremMesh == (stage = "integrals" /\ IsVec) => res.tot.flux = res.tot.int /\ res.tot.iflux = QZero
 VolumePositive == stage = "integrals" => res.tot.vol[1] > 0 /\ \A r \in res.rows : r.vol[1] > 0
 \* per-space gradients of a separable geometry on a product topology are the partial derivatives
-PerSpace == (stage = "interior" /\ mesh.name = "prod" /\ geom.sep) =>
-               \A r \in res.rows : r.gs = DField(r.X)
+PerSpace == (stage = "interior" /\ SepOn) =>
+               \A r \in res.rows : r.gs = DField(r.X) /\ \A s \in 1..Len(mesh.sp) : r.js[s][1] > 0
+\* on a product topology with a geometry that spans all spaces the concatenation of the derivatives to the root
+\* targets of the spaces gives the gradient p'(X) (and the spaces do not mix in the base coordinates)
+ProductGradient == /\ (stage \in PointStages /\ N = M /\ Len(mesh.sp) > 1) => \A r \in res.rows : r.g = DField(r.X)
+                   /\ Len(mesh.sp) > 1 => \A el \in mesh.elems : \A s \in 1..Len(mesh.sp) : \A t \in 1..Len(mesh.sp) :
+                          s = t \/ \A i \in 1..mesh.sp[s] : \A j \in 1..mesh.sp[t] : BMat(el)[SpCols(mesh.sp, s)[i]][SpCols(mesh.sp, t)[j]][1] = 0
+\* a field that lives on the boundary topology: its gradient with respect to the geometry agrees with p'(X) along every
+\* tangent of the facet (the normal component is not defined by the field)
+BoundaryFieldTangential == stage = "bfield" =>
+                              \A r \in res.rows : \A k \in 1..Len(r.tp) : r.gt[k] = MVec(DField(r.X), r.tp[k])
+\* the surface gradient on a boundary sample of a domain is the tangential projection of p'(X)
+BoundarySurfGrad == stage = "bfield" =>
+                       \A r \in res.rows : LET nn == VDot(r.nv, r.nv)
+                                           IN /\ nn[1] > 0 /\ \A k \in 1..Len(r.tp) : VDot(r.nv, r.tp[k])[1] = 0
+                                              /\ MScale(nn, r.sg) = MMul(DField(r.X), MSub(MScale(nn, IdMat(N)), Outer(r.nv, r.nv)), N)
 \* refinement changes no integral
 RefinePreservesStep == (stage = "integrals" /\ stage' = "integrals" /\ mesh'.level = mesh.level + 1) =>
                           (res'.tot = res.tot /\ PrintT(<<"VF", ToJson([tab |-> "refine-preserved", mesh |-> mesh.name, geom |-> geom.id, field |-> field.id])>>))
 RefinePreserves == [][RefinePreservesStep]_vars
-TypeOK == /\ stage \in {"mesh", "geom", "field", "interior", "boundary", "interfaces", "integrals"}
+TypeOK == /\ stage \in {"mesh", "geom", "field", "interior", "boundary", "interfaces", "bfield", "integrals"}
           /\ mesh.elems # {}
-          /\ stage \in PointStages => res.rows # {}
+          /\ stage \in PointStages \cup {"bfield"} => res.rows # {}
 
 (***************************************************************************)
 (* emission of the predicted observations for the replay against nutils    *)
 (***************************************************************************)
 Emit(x) == PrintT(<<"VF", ToJson(x)>>)
-Snapshot == [mesh |-> mesh.name, level |-> mesh.level, nelems |-> Cardinality(mesh.elems),
+Snapshot == [mesh |-> mesh.name, level |-> mesh.level, nelems |-> Cardinality(mesh.elems), sp |-> mesh.sp,
              elems |-> {ElemVerts(el) : el \in mesh.elems},
-             geom |-> geom.id, G |-> geom.G, m |-> M, n |-> N, sep |-> geom.sep,
+             geom |-> geom.id, G |-> geom.G, m |-> M, n |-> N, sep |-> geom.sep, sepon |-> SepOn, degfg |-> DegP * DegG,
              field |-> field.id, kind |-> field.kind, P |-> field.P,
              stage |-> stage, lattice |-> LatticeK, rows |-> res.rows, tot |-> res.tot]
-EmitEval == (stage \in PointStages \cup {"integrals"}) => Emit(Snapshot)
+EmitEval == (stage \in PointStages \cup {"bfield", "integrals"}) => Emit(Snapshot)
 =============================================================================
